@@ -2,6 +2,7 @@
 
 (a) compute_mc_paths_giles / criteria_giles called on generated vectors; the bias tolerance of the stopping test is
     OBSERVED (bisection on the real function), then  sum V_l / N_l <= rmse^2 - T^2  is judged.
+(a') criteria_giles on vectors of 1..7 level means against the stated three-level rule (both answers, boundary excluded).
 (b) the real multilevel Engine with a scripted coupling process; record-only wrappers on the configured criteria and
     allocation functions; the event log is checked: no sample above the maximum level, return only when the last
     criteria call was True or the maximum level is reached, every level within the 1% rule, bounded termination.
@@ -18,14 +19,18 @@ from .C05 import make_profile
 ID = "C06"
 RULE = ("(a) case = (variance vector, cost vector of length 3..12 with dynamic range 1e-12..1e6 and zeros in either or both, rmse over "
         "4 decades, alpha in [0.3, 3]); (b) case = scripted (mean, sd, cost) profile x rmse x initial level x N0 x maximum level, "
-        "rates given or regressed; non-trivial = (a) at least two levels with positive variance, (b) run with >= 2 allocation "
+        "rates given or regressed, one or two processes; (c) case = vector of 1..7 level means around the observed tolerance with a price-sized first entry; non-trivial = (a) at least two levels with positive variance, (b) run with >= 2 allocation "
         "calls; distinct = distinct seed")
 ASSUMPTIONS = ["N_l = 0 with V_l > 0 counts as infinite variance; V_l = 0 contributes 0 whatever N_l",
                "bounded termination: a run that needs more than the sample budget (quick 1.5e5, thorough 2e6) is inconclusive",
-               "configurations with 2 <= initial_level <= maximum_level (the criteria reads three level means)"]
-REQUIRED_COUNTERS = ["allocation_checks", "bias_tolerance_measurements", "runs", "criteria_calls_observed", "allocation_calls_observed",
+               "the stopping test is the stated one: the last three level means (the ones available when fewer), each extrapolated to the last level by "
+               "2^(-k alpha)/(2^alpha - 1), against a tolerance T that is OBSERVED on the real function (bisection on [0, 0, m]); vectors within 1e-9 of "
+               "the boundary are not judged",
+               "runs with worker processes: the samples are counted where they reach the statistics in the parent process"]
+REQUIRED_COUNTERS = ["allocation_checks", "bias_tolerance_measurements", "stopping_test_evaluations", "stopping_test_on_fewer-than-three_levels",
+                     "run_stopping_tests_rechecked", "runs_with_worker_processes", "runs", "criteria_calls_observed", "allocation_calls_observed",
                      "runs_stopped_by_criteria", "runs_stopped_at_maximum_level", "default_configuration_histories"]
-MIN_NONTRIVIAL = {"quick": 150, "thorough": 3000}
+MIN_NONTRIVIAL = {"quick": 300, "thorough": 6000}
 SHARD_TIMEOUT = {"quick": 900, "thorough": 7200}
 
 
@@ -47,6 +52,14 @@ def gen_cases(tier, seed):
                       "scale": 1.0, "budget": 150_000})
     # histories of pricings in one process with the library's DEFAULT configuration arguments (no convergence rates given): a run must not
     # depend on the runs priced before it
+    # the stopping test itself on short and long vectors of level means (1..7 levels, the first one of the size of a price)
+    for i in range(300 if tier == "quick" else 6000):
+        cases.append({"kind": "criteria", "seed": int(rng.integers(2**31))})
+    # the samples simulated by a pool of two worker processes (small passes: a few paths per level)
+    for i in range(6 if tier == "quick" else 40):
+        cases.append({"kind": "run", "seed": int(rng.integers(2**31)), "profile": ["geometric", "slow-decay", "plateau"][i % 3], "rmse_exp": float(rng.uniform(-0.9, -0.3)),
+                      "L0": int(rng.choice([1, 2, 3])), "N0": int(rng.choice([3, 5, 20])), "Lmax_extra": int(rng.integers(1, 4)), "beta": float(rng.uniform(0.8, 2.0)),
+                      "alpha": float(rng.uniform(0.6, 1.3)), "rates_given": True, "scale": 1.0, "budget": 3000, "workers": 2})
     for i in range(6 if tier == "quick" else 60):
         a = {"seed": int(rng.integers(2**31)), "profile": "geometric", "rmse_exp": float(rng.uniform(-1.3, -0.6)), "L0": 2, "N0": 20, "Lmax_extra": 4,
              "beta": float(rng.uniform(1.2, 2.2)), "alpha": float(rng.uniform(1.0, 1.5)), "scale": 1.0, "budget": 150_000}
@@ -61,6 +74,8 @@ def run_case(case, R):
         _alloc(case, R)
     elif case["kind"] == "history":
         _history(case, R)
+    elif case["kind"] == "criteria":
+        _criteria(case, R)
     else:
         _run(case, R)
 
@@ -124,6 +139,52 @@ def _bias_tolerance(criteria, alpha, rmse):
     return lo
 
 
+def _three_level_rule(alpha, ml, T):
+    """the stated stopping test: every one of the last three level means (of the ones available when fewer), extrapolated to the last
+    level, within the tolerance T.  Returns (verdict, margin) -- margin = relative distance of the deciding quantity from T"""
+    ml = np.abs(np.asarray(ml, dtype=float))
+    n = min(3, len(ml))
+    rem = max(ml[-1 - k] / 2.0 ** (k * alpha) for k in range(n)) / (2.0**alpha - 1.0)
+    return bool(rem <= T), (abs(rem - T) / T if T > 0 else math.inf)
+
+
+def _criteria(case, R):
+    from rpylib.montecarlo.multilevel.criteria import criteria_giles
+
+    rng = np.random.default_rng(case["seed"])
+    n = int(rng.integers(1, 8))
+    alpha = float(rng.uniform(0.3, 3.0))
+    rmse = float(10.0 ** rng.uniform(-3, 1))
+    T = _bias_tolerance(criteria_giles, alpha, rmse)
+    R.hit("bias_tolerance_measurements")
+    if not (0 < T < math.inf):
+        R.skip("no finite positive bias tolerance observed")
+        return
+    # level means: a price-sized first entry, corrections around the tolerance (so that either answer occurs)
+    ml = T * (2.0**alpha - 1.0) * 10.0 ** rng.uniform(-1.5, 1.0, size=n) * 2.0 ** (alpha * np.arange(n)[::-1] * rng.uniform(0, 1.2))
+    if rng.random() < 0.6:
+        ml[0] = float(10.0 ** rng.uniform(-1, 2)) * max(rmse, 1.0)
+    if rng.random() < 0.3:
+        ml[int(rng.integers(n))] = 0.0
+    want, margin = _three_level_rule(alpha, ml, T)
+    if margin < 1e-9:
+        R.skip("on the boundary of the stopping test")
+        return
+    try:
+        got = bool(criteria_giles(alpha, ml.copy(), rmse))
+    except Exception as exc:  # noqa: BLE001
+        R.violation("criteria-raises", f"criteria_giles raises {type(exc).__name__}: {exc} on {n} level mean(s)", {"ml": ml.tolist(), "alpha": alpha, "rmse": rmse})
+        return
+    R.hit("stopping_test_evaluations")
+    R.hit(f"stopping_test_on_{'fewer-than-three' if n < 3 else 'three' if n == 3 else 'more-than-three'}_levels")
+    if got != want:
+        tag = "fewer-than-four-levels" if n < 4 else "four-or-more-levels"
+        R.violation(f"stopping-test-{'passes' if got else 'fails'}-against-the-last-three-level-means-{tag}",
+                    f"criteria_giles(alpha={alpha!r}, ml={ml.tolist()}, rmse={rmse!r}) = {got}; observed bias tolerance T = {T!r}; the last "
+                    f"{min(3, n)} level mean(s), extrapolated, {'exceed' if got else 'are within'} it", {"ml": ml.tolist(), "alpha": alpha, "rmse": rmse, "T": T})
+    R.nontrivial_case("criteria", case["seed"])
+
+
 def _alloc(case, R):
     from rpylib.montecarlo.multilevel.criteria import compute_mc_paths_giles, criteria_giles
 
@@ -184,8 +245,9 @@ def _run(case, R):
     Lmax = L0 + case["Lmax_extra"]
     rates = ConvergenceRates(alpha=case["alpha"], beta=case["beta"], gamma=1.0) if case["rates_given"] else ConvergenceRates()
     cp = ScriptedCoupling(profile, cost, rate=0.02, budget=case["budget"])
+    workers = int(case.get("workers", 1))
     try:
-        conf = ConfigurationMultiLevel(convergence_rates=rates, initial_level=L0, maximum_level=Lmax, initial_mc_paths=N0, seed=7, nb_of_processes=1)
+        conf = ConfigurationMultiLevel(convergence_rates=rates, initial_level=L0, maximum_level=Lmax, initial_mc_paths=N0, seed=7, nb_of_processes=workers)
     except ValueError:
         if Lmax < L0:
             R.hit("inconsistent_levels_refused")
@@ -198,29 +260,51 @@ def _run(case, R):
     calls = []
     orig_c, orig_n = cc.criteria, cc.compute_mc_paths
 
+    from rpylib.montecarlo.statistic.statistic import MLMCStatistics
+
+    written = {}          # level -> number of samples handed to the statistics (in this process, also when workers simulate them)
+
+    def n_written():
+        return sum(written.values())
+
     def criteria(alpha, ml, rmse_):
         out = orig_c(alpha, ml, rmse_)
-        calls.append(("criteria", bool(out), len(ml), cp.counters.total()))
+        calls.append(("criteria", bool(out), len(ml), n_written(), float(alpha), np.array(ml, dtype=float, copy=True), float(rmse_)))
         return out
 
     def compute(rmse_, vl, cl):
         out = orig_n(rmse_, vl, cl)
-        calls.append(("alloc", np.asarray(out).copy(), cp.counters.total()))
+        calls.append(("alloc", np.asarray(out).copy(), n_written()))
         return out
 
     cc.criteria, cc.compute_mc_paths = criteria, compute
     product = Product(payoff_underlying=Spot(), payoff=Forward(strike=10.0), maturity=1.5, notional=2.0)
     wit = {"case": case, "rmse": rmse, "Lmax": Lmax}
+    orig_add = MLMCStatistics.add
+
+    def add(self_, simulation, level, path_manager):
+        written[int(level)] = written.get(int(level), 0) + 1
+        return orig_add(self_, simulation, level, path_manager)
+
+    MLMCStatistics.add = add
     try:
         st = Engine(conf, cp).price(product, rmse)
     except BudgetExceeded:
         R.skip("sample-budget-exceeded (bounded termination not decided)")
         return
     except Exception as exc:  # noqa: BLE001
-        R.violation("engine-raises", f"multilevel Engine.price raises {type(exc).__name__}: {exc}", wit)
+        R.violation("engine-raises" + ("-with-worker-processes" if workers > 1 else ""), f"multilevel Engine.price raises {type(exc).__name__}: {exc}", wit)
         return
+    finally:
+        MLMCStatistics.add = orig_add
     R.hit("runs")
-    levels = [e[1] for e in cp.log.events if e[0] == "sample"]
+    if workers > 1:
+        R.hit("runs_with_worker_processes")
+        levels = sorted(written)
+    else:
+        levels = [e[1] for e in cp.log.events if e[0] == "sample"]
+        if n_written() != cp.counters.total():
+            R.violation("samples-simulated-but-not-stored", f"{cp.counters.total()} samples simulated, {n_written()} handed to the statistics", wit)
     top = max(levels)
     nlev = len(st.mc_statistics)
     if top > Lmax or nlev - 1 > Lmax:
@@ -230,7 +314,23 @@ def _run(case, R):
     R.hit("criteria_calls_observed", len(crit))
     R.hit("allocation_calls_observed", len(allocs))
     Nl = np.asarray(st.mlmc_results.Nl, dtype=float)
-    total = cp.counters.total()
+    total = n_written()
+    got_n = np.array([written.get(l, 0) for l in range(len(Nl))], dtype=float)
+    if not np.array_equal(got_n, Nl):
+        l = int(np.where(got_n != Nl)[0][0])
+        R.violation("level-reported-with-samples-never-simulated" + ("-worker-processes" if workers > 1 else ""), f"level {l}: Nl = {Nl[l]:.0f} reported, "
+                    f"{got_n[l]:.0f} samples reached the statistics (Nl = {Nl.tolist()}, simulated = {got_n.tolist()})", wit)
+    # the stopping test the run relied on, against the stated rule (tolerance observed on the real function)
+    if crit and cc.criteria is criteria and getattr(orig_c, "__name__", "") == "criteria_giles":
+        last = crit[-1]
+        T = _bias_tolerance(orig_c, last[4], last[6])
+        if 0 < T < math.inf:
+            want, margin = _three_level_rule(last[4], last[5], T)
+            R.hit("run_stopping_tests_rechecked")
+            if margin > 1e-9 and want != last[1]:
+                R.violation(f"stopping-test-{'passes' if last[1] else 'fails'}-against-the-last-three-level-means-{'fewer-than-four-levels' if last[2] < 4 else 'four-or-more-levels'}",
+                            f"the run's last stopping test, criteria(alpha={last[4]!r}, ml={last[5].tolist()}, rmse={last[6]!r}) = {last[1]}, but the last "
+                            f"{min(3, last[2])} level means extrapolated {'exceed' if last[1] else 'are within'} the observed tolerance {T!r}", wit)
     if not crit:
         # returned through the "initial number of paths too low" exit: only legal when no allocation asked for more samples
         R.violation("returned-without-bias-test", "price() returned although the stopping test was never evaluated", wit)
